@@ -36,6 +36,7 @@ import (
 	sqlite3 "github.com/mattn/go-sqlite3"
 	"github.com/pegnet/pegnetd/config"
 	"github.com/pegnet/pegnetd/fat/fat2"
+	"github.com/pegnet/pegnetd/node"
 	"github.com/pegnet/pegnetd/node/conversions"
 	"github.com/pegnet/pegnetd/node/pegnet"
 )
@@ -156,7 +157,8 @@ func (s *APIServer) getGlobalRichList(ctx context.Context, data json.RawMessage)
 
 	height := s.Node.GetCurrentSync()
 	rates, realHeight, err := s.Node.Pegnet.SelectMostRecentRatesBeforeHeight(nil, s.Node.Pegnet.DB, height+1)
-	averages := s.Node.GetPegNetRateAverages(ctx, realHeight).(map[fat2.PTicker]uint64)
+	// handlers run concurrently with the sync loop: never touch its averages cache
+	averages := (&node.Pegnetd{Pegnet: s.Node.Pegnet}).GetPegNetRateAverages(ctx, realHeight).(map[fat2.PTicker]uint64)
 	if err != nil {
 		return err
 	}
@@ -233,7 +235,8 @@ func (s *APIServer) getRichList(ctx context.Context, data json.RawMessage) inter
 
 	height := s.Node.GetCurrentSync()
 	rates, rateHeight, err := s.Node.Pegnet.SelectMostRecentRatesBeforeHeight(nil, s.Node.Pegnet.DB, height+1)
-	averages := s.Node.GetPegNetRateAverages(ctx, rateHeight).(map[fat2.PTicker]uint64)
+	// handlers run concurrently with the sync loop: never touch its averages cache
+	averages := (&node.Pegnetd{Pegnet: s.Node.Pegnet}).GetPegNetRateAverages(ctx, rateHeight).(map[fat2.PTicker]uint64)
 	if err != nil {
 		return err
 	}
